@@ -210,3 +210,19 @@ func (m *Map) Range(f func(key, value interface{}) bool) {
 		}
 	}
 }
+
+// RangePlain iterates without scheduler points (for oracles / predicates evaluated in scheduler context).
+func (m *Map) RangePlain(f func(key, value interface{}) bool) {
+	m.mu.Lock()
+	ks := append([]interface{}(nil), m.keys...)
+	m.mu.Unlock()
+	for _, k := range ks {
+		v, ok := m.m.Load(k)
+		if !ok {
+			continue
+		}
+		if !f(k, v) {
+			break
+		}
+	}
+}
